@@ -1,5 +1,5 @@
 (* C17 -- matrix containers are internally consistent (the part that is logic: slices). *)
-From Verif Require Import Base Coding Contrasts Frame Eval Design DesignStructure DesignCoding.
+From Verif Require Import Base Coding Contrasts Frame Eval Algebra Design DesignStructure DesignCoding FrameStructure Unseen Prediction PredictionGroups Containers.
 From Verif Require Tie.
 Local Close Scope Qc_scope.
 Local Close Scope Q_scope.
@@ -34,6 +34,80 @@ Theorem C17_hstack_width :
     width (hstack blocks n) = list_sum (map width blocks).
 Proof. exact hstack_width. Qed.
 
+(* ---- the functional statements: what indexing by a term name returns ---- *)
+
+(* every design [design_matrices] returns for a rectangular frame has the row count the missing-value
+   policy retains and is well shaped (rows regular, term names pairwise distinct) ... *)
+Theorem C17_built_design_shape : forall cx e data na ds,
+  frame_wf data -> scalar_extras cx -> design_matrices cx e data na = Ok ds ->
+  exists m, describe e = Ok m /\ ds_nrows ds = retained data m na /\ design_shape ds.
+Proof. exact design_matrices_containers. Qed.
+
+(* ... response, common and group matrices have one row per retained observation ... *)
+Theorem C17_row_counts : forall ds,
+  design_shape ds ->
+  (forall r, ds_response ds = Some r -> List.length (dt_rows r) = ds_nrows ds) /\
+  Forall (fun t => List.length (dt_rows t) = ds_nrows ds) (ds_common ds) /\
+  Forall (fun g => List.length (dg_rows g) = ds_nrows ds) (ds_group ds) /\
+  List.length (common_matrix ds) = ds_nrows ds /\
+  List.length (group_matrix ds) = ds_nrows ds.
+Proof. exact design_row_counts. Qed.
+
+(* ... indexing the common (group) matrix by a term name returns exactly that term's columns, and a name
+   that is not a term name is refused. *)
+Theorem C17_common_index : forall ds t,
+  design_shape ds -> In t (ds_common ds) ->
+  index_by_name (dt_name t) (common_slices ds) (common_matrix ds) = Some (dt_rows t).
+Proof. exact design_common_index. Qed.
+
+Theorem C17_common_unknown_refused : forall ds nm,
+  ~ In nm (map dt_name (ds_common ds)) -> index_by_name nm (common_slices ds) (common_matrix ds) = None.
+Proof. exact design_common_unknown. Qed.
+
+Theorem C17_group_index : forall ds g,
+  design_shape ds -> In g (ds_group ds) ->
+  index_by_name (dg_name g) (group_slices ds) (group_matrix ds) = Some (dg_rows g).
+Proof. exact design_group_index. Qed.
+
+Theorem C17_group_unknown_refused : forall ds nm,
+  ~ In nm (map dg_name (ds_group ds)) -> index_by_name nm (group_slices ds) (group_matrix ds) = None.
+Proof. exact design_group_unknown. Qed.
+
+(* The objects returned for new data: the group matrix (widened by new groups or not) indexed by a term
+   name through the slices it REPORTS returns that term's new block; the common matrix indexed through
+   the TRAINING slices (evaluate_new_data keeps self.slices) returns that term's new block. *)
+Theorem C17_new_group_index : forall cx mode ds data ng,
+  design_shape ds -> frame_wf data -> extras_shape (frame_rows data) cx ->
+  new_group cx mode ds data = Ok ng ->
+  exists parts,
+    mapM (new_gterm cx mode data) (ds_group ds) = Ok parts /\
+    List.length (ng_rows ng) = frame_rows data /\
+    Forall (fun p => List.length (fst p) = frame_rows data /\ regular_rows (fst p)) parts /\
+    ng_slices ng = new_slices (map dg_name (ds_group ds)) parts /\
+    forall j g p, nth_error (ds_group ds) j = Some g -> nth_error parts j = Some p ->
+      index_by_name (dg_name g) (ng_slices ng) (ng_rows ng) = Some (fst p).
+Proof. exact new_group_index. Qed.
+
+Theorem C17_new_common_index : forall cx e data na ds mode newdata r,
+  frame_wf data -> scalar_extras cx -> design_matrices cx e data na = Ok ds -> ds_nrows ds <> 0 ->
+  frame_wf newdata -> frame_rows newdata <> 0 ->
+  new_common cx mode ds newdata = Ok r ->
+  List.length (nr_rows r) = frame_rows newdata /\
+  exists parts,
+    mapM (new_term cx mode newdata) (ds_common ds) = Ok parts /\
+    forall j t p, nth_error (ds_common ds) j = Some t -> nth_error parts j = Some p ->
+      index_by_name (dt_name t) (common_slices ds) (nr_rows r) = Some (fst p).
+Proof. exact design_new_common_index. Qed.
+
+(* Non-vacuity and the necessity of the rectangular-frame premise: see Containers.ContainersExamples
+   (ex_shape, ex_new_group_theorem, ragged_frame_row_counts_refuted). *)
+
+Print Assumptions C17_built_design_shape.
+Print Assumptions C17_row_counts.
+Print Assumptions C17_common_index.
+Print Assumptions C17_group_index.
+Print Assumptions C17_new_group_index.
+Print Assumptions C17_new_common_index.
 Print Assumptions C17_slices_contiguous.
 Print Assumptions C17_new_group_slices.
 Print Assumptions C17_hstack_width.
